@@ -588,3 +588,23 @@ package cert
 //@ type AuthorityKeyIdentifier @C07,C01
 //@   order KeyIdentifier
 //@   asn1 KeyIdentifier "optional,tag:0"
+
+// The admission structures (CommonPKI): NamingAuthority is encoded as a whole by encoding/asn1, in declaration order, so
+// the order {OID, IA5String url, DirectoryString text} is a fact about the declaration.
+//@ type NamingAuthority @C16
+//@   order Oid URL Text
+//@   asn1 Oid "optional"
+//@   asn1 URL "ia5,optional"
+//@   asn1 Text "utf8,optional"
+//@ type ProfessionInfo @C16
+//@   order NamingAuthority ProfessionItems ProfessionOids RegistrationNumber AddProfessionInfo
+//@   asn1 NamingAuthority "tag:0,explicit,optional"
+//@   asn1 ProfessionItems "omitempty,optional"
+//@   asn1 ProfessionOids "omitempty,optional"
+//@   asn1 RegistrationNumber "printable,optional"
+//@   asn1 AddProfessionInfo "omitempty,optional"
+//@ type Admissions @C16
+//@   order AdmissionAuthority NamingAuthority ProfessionInfos
+//@   asn1 NamingAuthority "tag:1,optional,explicit"
+//@ type Admission @C16
+//@   order AdmissionAuthority Contents
